@@ -1,0 +1,17 @@
+//go:build verif
+
+package main
+
+// Contracts for the deductive verifier in /verif (govc).  This file contains comments only;
+// it is compiled only with -tags verif and declares nothing.
+
+// main: the configuration Run receives is the one ParseArgs filled in (C18); every os.Exit is os.Exit(1)
+// and is preceded by a line on stderr (C14); main itself prints nothing on stdout and writes no file:
+// its $fsw / $out effects are exactly those of Run.
+
+//@ func main()
+//@   effects env-read, stderr, exit, fs-write, fs-read, parsefile, log, stdout, random
+//@   assigns anything
+//@   atcall Exit: {C14,C18} $arg0 == 1
+//@   atcall Run: {C18,C15} $arg0.Output == config.outputOf($arg0.Input) && $arg0.Input == config.inputOf() && $arg0.DryRun == flagBool("dry") && $arg0.Prints == flagBool("print")
+//@   ensures {C15} $fsw.n <= old($fsw.n) + 2
